@@ -497,3 +497,52 @@ func c19Round3(p *Prog, r *Report) {
 	}
 	r.Floor("R11", "custom JSON encoders in package model", nEnc, 1)
 }
+
+// noClampRule: the remaining duration of a period (end time minus now) is
+// emitted as computed: in the function of package model that subtracts two times
+// and returns a duration, no successful return yields a constant in place of the
+// computed value (a clamp turns an elapsed period into one that ends now, and
+// again at every later hop).
+func noClampRule(p *Prog, r *Report, rule string) {
+	n := 0
+	for _, fn := range p.RepoFns("model") {
+		res := fn.Signature.Results()
+		if res.Len() != 2 || res.At(0).Type().String() != "time.Duration" || !errLike(res.At(1).Type()) {
+			continue
+		}
+		hasSub := false
+		forEachCallOwn(fn, func(site ssa.CallInstruction) {
+			if c := site.Common().StaticCallee(); c != nil && fnPkgPath(c) == "time" && c.Name() == "Sub" {
+				hasSub = true
+			}
+		})
+		if !hasSub {
+			continue
+		}
+		n++
+		bad := ""
+		nRet := 0
+		for _, b := range fn.Blocks {
+			ret, isRet := b.Instrs[len(b.Instrs)-1].(*ssa.Return)
+			if !isRet || len(ret.Results) != 2 || !isNilConst(ret.Results[1]) {
+				continue
+			}
+			nRet++
+			var alts func(v ssa.Value, d int)
+			alts = func(v ssa.Value, d int) {
+				if ph, isPhi := v.(*ssa.Phi); isPhi && d < 4 {
+					for _, e := range ph.Edges {
+						alts(e, d+1)
+					}
+					return
+				}
+				if k, isK := v.(*ssa.Const); isK {
+					bad = fmt.Sprintf("a successful return yields the constant %s instead of the computed duration", k.Value)
+				}
+			}
+			alts(ret.Results[0], 0)
+		}
+		r.Check(rule, FnName(fn)+"|computed-duration-unmodified", bad == "" && nRet > 0, p.Pos(fn.Pos()), fmt.Sprintf("%d successful returns; %s", nRet, bad))
+	}
+	r.Floor(rule, "functions computing a remaining duration", n, 1)
+}
